@@ -279,8 +279,10 @@ func (r *Result) edgeFeasible(p, b *ssa.BasicBlock, st pstate, depth int) bool {
 	if known, taken := decided(p, b); known && !taken {
 		return false
 	}
-	if len(p.Preds) == 1 {
-		if known, taken := decided(p.Preds[0], p); known && !taken {
+	// ... or a branch further up the chain of blocks that have p as their only way in (`a && b && c`: the edge out of
+	// c's block is infeasible when a is known false)
+	for q, i := p, 0; len(q.Preds) == 1 && i < 6; q, i = q.Preds[0], i+1 {
+		if known, taken := decided(q.Preds[0], q); known && !taken {
 			return false
 		}
 	}
